@@ -330,3 +330,25 @@ func VerifC13ParseMessage() {
 	none := profile.ParseMessageExpression(pre + post)
 	v.Assert("C13.parseMessage.no-placeholder", len(none.Variables) == 0 && none.Expression == pre+post)
 }
+
+// VerifC13MessageBraces: text that contains braces but no well-formed placeholder is plain
+// text: no variables, and the message reaches the literal as written (through the real
+// ParseMessageExpression; representative alphabet, which has no '.' and hence no placeholder).
+func verifC13MessageBraces(maxLen int) {
+	text := verifAlphaText("msg", maxLen)
+	m := profile.ParseMessageExpression(text)
+	v.Assert("C13.messageBraces.no-variables", len(m.Variables) == 0)
+	lines := wrapBranch("n", m, verifBranch(), "matches", "x", IriExpanderFrom(profile.Profile{}))
+	const prefix = `  message := `
+	line, found := verifFindLine(lines, prefix)
+	v.Assert("C13.messageBraces.shape", found)
+	lit, end, ok := refAnyString(line, len(prefix))
+	v.Reach("lexed")
+	v.Assert("C13.messageBraces.literal-closed", ok && end == len(line))
+	if ok && end == len(line) {
+		v.Assert("C13.messageBraces.roundtrip", lit == refShown(text))
+	}
+}
+
+func VerifC13MessageBraces3() { verifC13MessageBraces(3) }
+func VerifC13MessageBraces4() { verifC13MessageBraces(4) }
